@@ -58,7 +58,8 @@ def Record(defs): return [14, list(defs)]
 def Param(named=1, bang=0): return [0, 0, named, bang]
 def Params(nd=(), dflt=()): return [list(nd), [], [[p, e] for p, e in dflt], [], []]
 def Lambda(proc, params, body): return [15, proc, params, list(body)]
-def Def(name, body, proc=0, params=None, pub=0, ltp=0, const=0):
+def Def(name, body, proc=None, params=None, pub=0, ltp=0, const=0):
+    proc = (1 if name.endswith("!") else 0) if proc is None else proc     # Signature::is_procedural(): the name ends with `!`
     return [0, proc, 0 if params is None else 1, const, pub, name, [] if params is None else [params], [], list(body), ltp]
 def DefE(d): return [16, d]
 def TypeAsc(e): return [19, e]
@@ -75,14 +76,34 @@ class Gen:
         self.k = 0
         self.maxdepth = maxdepth
         self.peff = peff          # probability weight of effectful choices
+        self.pbang = rng.choice([0.0, 0.2, 0.5])
+        self.used = set()
 
-    def fresh(self, kind):
+    def fresh(self, kind, sc=None):
+        """fresh name.  Naming dimensions: plain variables (kinds v c r m) get a trailing `!` now and then; a function
+        defined inside a variable block may take a name that is a string prefix of an enclosing definition's name
+        (sc["pfx"], reserved by the "def" statement) or extends it (sc["encl"])"""
+        r = self.rng
+        if sc is not None and kind in ("k", "g") and r.random() < 0.35:
+            if sc["pfx"] and r.random() < 0.6:
+                cand = [n for n in sc["pfx"] if n not in self.used]
+                if cand:
+                    n = r.choice(cand); self.used.add(n)
+                    return n
+            cand = [n.rstrip("!") + "s" for n in sc["encl"] if n.rstrip("!") + "s" not in self.used]
+            if cand:
+                n = r.choice(cand); self.used.add(n)
+                return n
         self.k += 1
-        return "%s%s%d" % (self.prefix, kind, self.k)
+        n = "%s%s%d" % (self.prefix, kind, self.k)
+        if kind in ("v", "c", "r", "m") and r.random() < self.pbang:
+            n += "!"
+        self.used.add(n)
+        return n
 
     def ie(self, sc, d):
         r = self.rng
-        leafs = [("lit",), ("x",), ("n",)] + [("var", v) for v in sc["int"]] + [("asc", v) for v in sc["int"][:1]] + \
+        leafs = [("lit",), ("x",), ("n",)] + [("var", v) for v in sc["int"]] + [("asc", v) for v in sc["int"][:1] if not v.endswith("!")] + \
                 [("recattr", v) for v in sc["rec"]]
         effs = [("i",), ("q",), ("reca",)] + [("mread", m) for m in sc["mut"]] + [("callr", rn, ("lit",)) for rn in sc["proc"]] + \
                [("callg", g, ("lit",)) for g in sc["plam"]]
@@ -123,7 +144,7 @@ class Gen:
 
     def stmt(self, sc, d):
         r = self.rng
-        kinds = ["def", "def", "coll", "if", "match", "func", "proc", "plam", "flam", "mut", "rec"]
+        kinds = ["def", "def", "coll", "if", "match", "func", "func", "proc", "plam", "flam", "mut", "mut", "rec"]
         if r.random() < self.peff:
             kinds += ["print", "push", "for", "inc", "print"]
         k = r.choice(kinds)
@@ -134,8 +155,15 @@ class Gen:
         if k == "push": return ("push", e())
         if k == "inc": return ("inc", r.choice(sc["mut"]))
         if k == "def":
-            b = self.block(sc, d - 1)
-            v = self.fresh("v"); sc["int"].append(v)
+            v = self.fresh("v")
+            inner = {kk: list(vv) for kk, vv in sc.items()}
+            if r.random() < 0.4 and not v.endswith("!"):
+                inner["pfx"].append(v)       # an inner function may be called v; this block is then called v + "er"
+                self.used.add(v + "er")
+                v = v + "er"
+            inner["encl"].append(v)
+            b = self.block(inner, d - 1)
+            sc["int"].append(v)
             return ("def", v, b)
         if k == "coll":
             kind = r.choice(["list", "tuple", "dict"])
@@ -162,8 +190,9 @@ class Gen:
             dflt = e() if r.random() < 0.3 else None
             inner = {kk: list(vv) for kk, vv in sc.items()}
             inner["int"] += ["y"] + (["z"] if dflt is not None else [])
+            inner["shadow"] = list(sc["mut"])
             b = self.block(inner, d - 1)
-            nm = self.fresh("k") if k == "func" else self.fresh("r") + "!"
+            nm = self.fresh("k", sc) if k == "func" else self.fresh("q") + "!"
             sc["func" if k == "func" else "proc"].append(nm)
             return (k, nm, dflt, b)
         if k == "plam":
@@ -176,17 +205,20 @@ class Gen:
             inner = {kk: list(vv) for kk, vv in sc.items()}
             inner["int"].append("y")
             body = self.ie(inner, min(d - 1, 2))
-            nm = self.fresh("g"); sc["flam"].append(nm)
+            nm = self.fresh("g", sc); sc["flam"].append(nm)
             return ("flam", nm, body)
         if k == "mut":
             ee = e()
-            m = self.fresh("m"); sc["mut"].append(m)
+            if sc["shadow"] and r.random() < 0.5:
+                m = sc["shadow"].pop()           # shadows a mutable of an enclosing subroutine (already in sc["mut"])
+            else:
+                m = self.fresh("m"); sc["mut"].append(m)
             return ("mut", m, ee)
         raise AssertionError(k)
 
 
 def empty_scope():
-    return {"int": [], "mut": [], "rec": [], "func": [], "proc": [], "plam": [], "flam": []}
+    return {"int": [], "mut": [], "rec": [], "func": [], "proc": [], "plam": [], "flam": [], "pfx": [], "encl": [], "shadow": []}
 
 
 # ------------------------------------------------------------------ printer (source) and predictor (mini-HIR)
@@ -259,6 +291,13 @@ class Out:
     # ---- statements: returns (lines, hir)
     def block(self, b, ind, ns, last=None):
         """lines of the statements + final expression line; hir chunks"""
+        saved = dict(self.mutns)
+        try:
+            return self.block_(b, ind, ns, last)
+        finally:
+            self.mutns = saved if last is None else self.mutns     # definitions of a nested block end with it
+
+    def block_(self, b, ind, ns, last=None):
         stmts, fin = b
         lines, chunks = [], []
         for s in stmts:
@@ -309,10 +348,12 @@ class Out:
             return lines, DefE(Def(s[1], [h]))
         if t == "for":
             lines, chunks = [], []
+            saved = dict(self.mutns)
             for x in s[3]:
                 ls, h = self.stmt(x, ind + 4, ns + "::<lambda_0>")
                 lines += ls
                 chunks.append(h)
+            self.mutns = saved
             return [sp + "for! [%s, %s], j =>" % (self.pr(s[1]), self.pr(s[2]))] + lines, \
                 Call(builtin("for!"), [ListN([H(s[1]), H(s[2])]), Lambda(1, Params([Param(1)]), chunks)], cp=1)
         if t in ("func", "proc"):
@@ -327,8 +368,9 @@ class Out:
         if t == "flam":
             return [sp + "%s = (y: Int) -> %s" % (s[1], self.pr(s[2]))], DefE(Def(s[1], [Lambda(0, Params([Param(1)]), [H(s[2])])]))
         if t == "mut":
+            init = H(s[2])                 # the initialiser still sees the shadowed outer variable
             self.mutns[s[1]] = ns
-            return [sp + "%s = !%s" % (s[1], self.pr(s[2]))], DefE(Def(s[1], [Unary(H(s[2]))]))
+            return [sp + "%s = !%s" % (s[1], self.pr(s[2]))], DefE(Def(s[1], [Unary(init)]))
         raise AssertionError(s)
 
 
@@ -543,7 +585,7 @@ def evaluate(ctx, h, model, cases):
     return results
 
 
-VERDICT = {0: "ok", 1: "effect inside a function accepted", 2: "quiet procedure / module-level body rejected with an effect error",
+VERDICT = {0: "ok", 1: "effect inside a function (the subroutine itself or a function nested in the body) accepted", 2: "quiet procedure / module-level body rejected with an effect error",
            3: "effect inside a function accepted (known class: default value of a nested procedure's parameter)", -1: "judge out of fuel"}
 
 
@@ -561,7 +603,7 @@ def gen_cases(ctx, n):
 EFFECTS = [("q",), ("i",), ("reca",), "print", "push", "inc", "callr", "callg"]
 WRAPPERS = ["block", "recfield", "recvar", "list", "tuple", "dictk", "dictv", "set", "arg", "kwarg", "varargs", "kwvar", "attrrecv",
             "binl", "binr", "neg", "ifcond", "ifthen", "ifelse", "matcharm", "matchscrut", "index", "funcbody", "procbody",
-            "funcdflt", "procdflt", "plambody", "flambody", "forbody", "forlist", "mutinit"]
+            "funcdflt", "procdflt", "plambody", "flambody", "forbody", "forlist", "mutinit", "bangblock", "bangvar", "bangmut"]
 
 
 def placement(effect, chain, cnt=[0]):
@@ -618,6 +660,9 @@ def placement(effect, chain, cnt=[0]):
         elif w == "forbody": stm, e = [("for", ("lit",), ("lit",), stm + [("print", e)])], ("lit",)
         elif w == "forlist": stm, e = stm + [("for", ("lit",), e, [("print", ("lit",))])], ("lit",)
         elif w == "mutinit": m = fresh("m"); stm, e = stm + [("mut", m, e)], ("lit",)
+        elif w == "bangblock": vb = fresh("v") + "!"; stm, e = [("def", vb, (stm, e))], ("var", vb)
+        elif w == "bangvar": vb = fresh("v") + "!"; stm, e = stm + [("def", vb, ([], e))], ("var", vb)
+        elif w == "bangmut": m = fresh("m") + "!"; stm, e = stm + [("mut", m, e)], ("lit",)
         else: raise AssertionError(w)
     return (stm, e)
 
@@ -636,6 +681,57 @@ def placement_cases(depth, rng=None, sample=None):
         src, ctxs = render_case(body)
         c = Case(src, ctxs, "placement", body)
         c.label = "%s under %s" % (ef if isinstance(ef, str) else ef[0], "/".join(ch))
+        out.append(c)
+    return out
+
+
+# ---- systematic nesting: a subroutine defined inside variable-definition blocks reads a mutable object of each enclosing level
+def nesting_cases(cnt=[0]):
+    """levels: 1..2 enclosing variable blocks (plain or `!`-named), optionally inside an enclosing function / procedure;
+    a mutable object is defined at every level; the innermost subroutine (function / procedure / function lambda) reads the
+    mutable of level j (or the module-level i); its name is unrelated to, a string prefix of, or an extension of the name of
+    the enclosing block at level r"""
+    import itertools
+    out = []
+    for nblocks, bang, outer, inner, rel, read in itertools.product((1, 2), (0, 1), ("none", "func", "proc"), ("func", "proc", "flam"),
+                                                                 ("none", "pfx1", "ext1", "pfx2", "ext2"), (0, 1, 2, 3)):
+        if rel.endswith("2") and nblocks < 2: continue
+        if read == 2 and nblocks < 2: continue
+        if read == 3 and outer == "none": continue
+        cnt[0] += 1
+        u = "_n%d" % cnt[0]
+        base = [u + "b1", u + "b2"]
+        kname = u + "k"
+        names = [b + ("!" if bang else "") for b in base]
+        if rel.startswith("pfx"):
+            j = int(rel[-1]) - 1
+            names[j] = kname + "er" + ("!" if bang else "")       # the subroutine's name is a prefix of the block's name
+        elif rel.startswith("ext"):
+            j = int(rel[-1]) - 1
+            kname = base[j] + "s"                                    # ... or extends it
+        if inner == "proc":
+            kname += "!"
+        muts = [u + "m0", u + "m1", u + "m2"]                        # m0: in the outer subroutine, m1/m2: in the blocks
+        rd = {0: ("i",), 1: ("mread", muts[1]), 2: ("mread", muts[2]), 3: ("mread", muts[0])}[read]
+        if inner == "func":
+            sub = [("func", kname, None, ([], rd))]; use = ("callk", kname, ("lit",))
+        elif inner == "proc":
+            sub = [("proc", kname, None, ([], rd))]; use = ("lit",)
+        else:
+            sub = [("flam", kname, rd)]; use = ("callg", kname, ("lit",))
+        if nblocks == 2:
+            blk = ("def", names[0], ([("mut", muts[1], ("lit",)),
+                                      ("def", names[1], ([("mut", muts[2], ("lit",))] + sub, use))], ("var", names[1])))
+        else:
+            blk = ("def", names[0], ([("mut", muts[1], ("lit",))] + sub, use))
+        if outer == "none":
+            body = ([blk], ("var", names[0]))
+        else:
+            on = u + "o" + ("!" if outer == "proc" else "")
+            body = ([(outer, on, None, ([("mut", muts[0], ("lit",)), blk], ("var", names[0])))], ("lit",))
+        src, ctxs = render_case(body)
+        c = Case(src, ctxs, "nesting", body)
+        c.label = "blocks=%d bang=%d outer=%s inner=%s name=%s read=level%d" % (nblocks, bang, outer, inner, rel, read)
         out.append(c)
     return out
 
@@ -674,6 +770,8 @@ def run(ctx):
     model = ctx.model("Effects")
     cases = corpus_cases()
     cases += placement_cases(1)
+    nest = nesting_cases()
+    cases += nest if ctx.thorough else ctx.rng.sample(nest, 150)
     if ctx.thorough:
         cases += placement_cases(2, ctx.rng, sample=2500)
         ctx.cov["exhaustive_small_scope"] = "every effect (%d) under every wrapper (%d) at depth 1; %d sampled chains of depth 2" % (
